@@ -317,21 +317,32 @@ def check_vectorize(ctx, chk, hv):
                   and cn2.show(ev.data["base"]).startswith("{")]
         ok = False
         detail = ""
+        found_map = False
         for ev in s2.events:
             if ev.kind == "store" and ev.data["target"] == "attr" and ev.data["name"] == attr:
                 d = ev.data["value"]
-                if d[0] == "dictobj":
-                    dyn = ip2.heap[d[1]]["dyn"]
-                    detail = str([(cn2.show(k), cn2.show(v)) for k, v, _ in dyn])
-                    # parameter bound to host.<hostattr> at the call in vectorize
-                    par = [p for p, a in actual.items() if a.endswith("." + hostattr)]
-                    if len(dyn) == 1 and par:
-                        k, v, _ = dyn[0]
-                        it = f"each(enumerate({par[0]}))"
-                        ok = cn2.show(k) == f"{it}[1]" and cn2.show(v) == f"{it}[0]"
-        chk.ob("C09.vectorize", f"{attr}[name] = position of name in enumerate(host.{hostattr}"
-               ".items()) (same enumeration vectorize uses)", ok, detail,
-               f"{hv.module.path}:{init.node.lineno}")
+                from .shapes import as_mapping
+                mp_ = as_mapping(ip2, cn2, d)
+                # (an empty dict bound first and filled afterwards: judged at the filling store)
+                if mp_ is None and d[0] == "dictobj" and not ip2.heap[d[1]]["dyn"] \
+                        and not ip2.heap[d[1]]["items"]:
+                    continue
+                detail = str(mp_) if mp_ else cn2.show(d)[:200]
+                # parameter bound to host.<hostattr> at the call in vectorize
+                par = [p for p, a in actual.items() if a.endswith("." + hostattr)]
+                if mp_ is not None and par:
+                    it = f"each(enumerate({par[0]}))"
+                    ok = mp_[0] == f"{it}[1]" and mp_[1] == f"{it}[0]" \
+                        and mp_[2] == [f"enumerate({par[0]})"] and mp_[3] == ("true",)
+                    found_map = True
+        desc = (f"{attr}[name] = position of name in enumerate(host.{hostattr}.items()) (same "
+                "enumeration vectorize uses)")
+        if not found_map:
+            chk.undecided("C09.vectorize", desc, "the index map is not built uniformly over one "
+                          f"iterable in a form the analysis decodes: {detail}",
+                          f"{hv.module.path}:{init.node.lineno}")
+        else:
+            chk.ob("C09.vectorize", desc, ok, detail, f"{hv.module.path}:{init.node.lineno}")
 
 
 def check_dims(ctx, chk):
